@@ -576,8 +576,27 @@ def prove_break_is_error(src_root, ex: Explorer):
             ob.name = 'C04.break-is-error' + ob.name[len('C02._read.contract'):]
 
 
+def prove_relies_send_and_path(src_root, ex: Explorer):
+    """Two contracts of other properties that "COMPLETE means the whole file arrived" rests on, discharged here as well:
+    (a) DataConnection._send reports success only after drain() (C10._send.*): the uploader counts a chunk as sent when _send returns;
+    (b) _prepare_download_path keeps the local path of a download that already has one (C09.prepare.*): the offset of a resumed
+        download is the size of THAT file (C04.offset.*), so the tail must be appended to it and not to a newly numbered file."""
+    from contracts import C10, C09
+    C10.prove_after_closed(src_root, ex)
+    C09.prove_download_path(src_root, ex)
+    keep = []
+    for ob in ex.obligations:
+        if ob.name.startswith('C10._send.'):
+            ob.name = 'C04.send-reports-errors.' + ob.name[len('C10._send.'):]
+            keep.append(ob)
+        elif ob.name.startswith('C09.prepare.keeps-path') or ob.name.startswith('C09.prepare.sets-path') or ob.name.startswith('C09.prepare.creates-directory'):
+            ob.name = 'C04.resume.same-file.' + ob.name[len('C09.prepare.'):]
+            keep.append(ob)
+    ex.obligations[:] = keep
+
+
 def items(src_root, tier):
-    return [('break-is-error', None), ('retry-downloader', None), ('positive-grant', None), ('waits-for-close', None), ('offset-survives', None), ('receive_file', None), ('send_file', None), ('download_file', None), ('upload_file', None), ('offset', None), ('retry', None)]
+    return [('relies-send-path', None), ('break-is-error', None), ('retry-downloader', None), ('positive-grant', None), ('waits-for-close', None), ('offset-survives', None), ('receive_file', None), ('send_file', None), ('download_file', None), ('upload_file', None), ('offset', None), ('retry', None)]
 
 
 def run_item(src_root, item, tier):
@@ -586,7 +605,8 @@ def run_item(src_root, item, tier):
     kind, arg = item
     try:
         {'receive_file': prove_receive_file, 'send_file': prove_send_file, 'download_file': prove_download_file,
-         'upload_file': prove_upload_file, 'offset': prove_offset, 'retry': prove_retry, 'offset-survives': prove_offset_survives, 'break-is-error': prove_break_is_error, 'waits-for-close': prove_waits_for_close, 'positive-grant': prove_positive_grant, 'retry-downloader': prove_retry_downloader}[kind](src_root, ex)
+         'upload_file': prove_upload_file, 'offset': prove_offset, 'retry': prove_retry, 'offset-survives': prove_offset_survives, 'break-is-error': prove_break_is_error, 'waits-for-close': prove_waits_for_close, 'positive-grant': prove_positive_grant, 'retry-downloader': prove_retry_downloader,
+         'relies-send-path': prove_relies_send_and_path}[kind](src_root, ex)
     except Unsupported as e:
         res.errors.append(f'{kind}: unsupported: {e}')
     collect(res, ex)
